@@ -127,6 +127,13 @@ pub fn learn_positions<B: Fld, H: ElementHasher<BaseField = B> + Send + Sync>(pr
 /// draw_integers: seed = merge_with_int(seed, nonce), then the i-th value is the first 8 bytes (little endian) of
 /// merge_with_int(seed, i), i = 1.., reduced to the domain. Returns the sorted, de-duplicated positions.
 pub fn reference_positions<B: Fld, H: ElementHasher<BaseField = B> + Send + Sync>(proof: &Proof, pubs: &SpecPub<B>) -> Option<Vec<usize>> {
+    reference_positions_and_state::<B, H>(proof, pubs).map(|(p, _)| p)
+}
+
+/// The positions and the bytes of the coin state right after the nonce was absorbed. Two nonces are only "equivalent by
+/// coincidence" if they lead to DIFFERENT states that happen to give the same set of positions; equal states mean the nonce was
+/// not absorbed injectively, which is a defect and no exemption.
+pub fn reference_positions_and_state<B: Fld, H: ElementHasher<BaseField = B> + Send + Sync>(proof: &Proof, pubs: &SpecPub<B>) -> Option<(Vec<usize>, Vec<u8>)> {
     use crypto::Digest;
     let _ = take_log();
     let _ = verify_with::<B, H, RecCoin<H>>(proof.clone(), pubs, &lenient());
@@ -158,7 +165,7 @@ pub fn reference_positions<B: Fld, H: ElementHasher<BaseField = B> + Send + Sync
                     .collect();
                 v.sort_unstable();
                 v.dedup();
-                return Some(v);
+                return Some((v, s.as_bytes().to_vec()));
             },
             _ => {},
         }
@@ -260,7 +267,13 @@ impl<'a> PairFn for Integrity<'a> {
                     // statement - decided with the SPECIFIED coin (reference_positions), not with the library's: a coin
                     // that does not absorb the nonce properly makes neighbouring nonces equivalent
                     if let Some((FKind::Nonce, _, _)) = space.field_kind_at(first_diff(&seed.bytes, &bytes)) {
-                        if reference_positions::<B, H>(&p2, &seed.pubs).as_ref() == Some(&positions) {
+                        let orig_state = reference_positions_and_state::<B, H>(&seed.proof, &seed.pubs).map(|(_, st)| st);
+                        let mutant = reference_positions_and_state::<B, H>(&p2, &seed.pubs);
+                        let coincidence = match (&mutant, &orig_state) {
+                            (Some((pos, st)), Some(os)) => *pos == positions && st != os,
+                            _ => false,
+                        };
+                        if coincidence {
                             out.class("equivalent nonce: same query positions (another valid proof of the same statement)");
                             continue;
                         }
